@@ -207,15 +207,22 @@ def fq_name(name):
 _HFILE = {}
 
 
+_HLOCK = threading.Lock()
+
+
 def harness_file_of(name):
-    if not _HFILE:
-        for f in os.listdir(HARNESS_DIR):
-            if not f.endswith(".rs"):
-                continue
-            with open(os.path.join(HARNESS_DIR, f)) as fh:
-                txt = fh.read()
-            for m in re.finditer(r"\b(c\d\d_[A-Za-z0-9_]+)\b", txt):
-                _HFILE.setdefault(m.group(1), f)
+    with _HLOCK:
+        if not _HFILE:
+            tmp = {}
+            for f in sorted(os.listdir(HARNESS_DIR)):
+                if not f.endswith(".rs"):
+                    continue
+                with open(os.path.join(HARNESS_DIR, f)) as fh:
+                    txt = fh.read()
+                for m in re.finditer(r"\bfn (c\d\d_[A-Za-z0-9_]+)\b|\b(c\d\d_[A-Za-z0-9_]+)\b", txt):
+                    nm = m.group(1) or m.group(2)
+                    tmp.setdefault(nm, f)
+            _HFILE.update(tmp)
     if name not in _HFILE:
         raise RuntimeError("harness %s not found in %s" % (name, HARNESS_DIR))
     return _HFILE[name]
